@@ -41,6 +41,26 @@ func oracleC02(c *CaseC02) *Failure {
 		}
 		return nil
 	}
+	if c.Dir == "dec-unknown-key" {
+		// the wire carries an unregistered discriminator value: the schema defines no body type for it, so a
+		// decoder that follows the schema cannot accept the message
+		w := Render(c.V, nil).Bytes
+		if _, _, perr := Parse(c.Type, w); perr != ErrUnknownKey {
+			return nil // (the generated key happened to be registered after all, or the harness built something else)
+		}
+		got, _, err, pan := LibDecode(c.Type, w)
+		if pan != nil {
+			return failf("C02/"+c.Type+"/decode-panic", "Decode panicked on an unregistered discriminator: %v", pan)
+		}
+		if err == nil {
+			gt := "<nil>"
+			if di := Types[c.Type].DynIndex(); got != nil && got.F[di].O != nil {
+				gt = got.F[di].O.Type
+			}
+			return failf("C02/"+c.Type+"/decode-unknown-key-accepted", "discriminator %q selects no body type in the pinned schema, yet Decode accepted the message and built %s", keyOfValue(c.V), gt)
+		}
+		return nil
+	}
 	// dec
 	r := Render(c.V, nil)
 	if r.MustError || r.MayError {
@@ -66,6 +86,15 @@ func oracleC02(c *CaseC02) *Failure {
 		return failf("C02/"+c.Type+"/decode-value", "decoded value differs from the schema's reading: %s", d)
 	}
 	return nil
+}
+
+func keyOfValue(v *Value) string {
+	ts := Types[v.Type]
+	di := ts.DynIndex()
+	if di < 0 {
+		return ""
+	}
+	return KeyOf(v, ts, &ts.Fields[di], false)
 }
 
 // spanAt names the schema field that covers byte offset i of the pinned rendering.
@@ -245,6 +274,23 @@ func TestC02(t *testing.T) {
 				return c
 			}, oracleC02)
 		})
+		if Types[tn].DynIndex() >= 0 {
+			t.Run(tn+"/dec-unknown-key", func(t *testing.T) {
+				ts := Types[tn]
+				tb := TableOf(ts, &ts.Fields[ts.DynIndex()])
+				df := &ts.Fields[ts.FieldIndex(ts.Fields[ts.DynIndex()].Disc)]
+				CheckProp(t, "C02", "c02", tn+"/dec-unknown-key", func(rt *rapid.T) *CaseC02 {
+					g := &gen{rt: rt, feat: &Features{}, mult: 1}
+					key := g.unregisteredKey("key", tb, df)
+					pt := tb.TypeFor(tb.Order[rapid.IntRange(0, len(tb.Order)-1).Draw(rt, "part")])
+					v := holderWithKeyRT(rt, tb, key, true, pt)
+					c := &CaseC02{Type: tn, Dir: "dec-unknown-key", V: v}
+					Col.Case(Hash64([]byte(tn), []byte("unk"), []byte(key)), true, "dir:dec-unknown-key", "module:"+ts.Module)
+					Col.Program(tn)
+					return c
+				}, oracleC02)
+			})
+		}
 		t.Run(tn+"/dec", func(t *testing.T) {
 			CheckProp(t, "C02", "c02", tn+"/dec", func(rt *rapid.T) *CaseC02 {
 				pre, _ := genPrelude(rt, tn, false)
